@@ -106,6 +106,8 @@ def decide_zero(expr, tries=6, domain=None):
 
 
 def witness_text(env):
+    if not env:
+        return 'every input (the residual is a constant)'
     return ', '.join('%s = %s' % (k, v) for k, v in sorted(env.items(), key=lambda kv: kv[0].name))[:300]
 
 
